@@ -1265,6 +1265,9 @@ macro_rules! impl_binop_assign {
                 {
                     self.data[i].$method(0);
                 }
+                if let Some(l) = self.data.get_mut(self.length / Bvd::BIT_UNIT) {
+                    *l &= u64::mask(self.length % Bvd::BIT_UNIT);
+                }
             }
         }
 
@@ -1281,6 +1284,9 @@ macro_rules! impl_binop_assign {
                 }
                 for i in usize::min(IArray::int_len::<u64>(rhs), self.data.len())..self.data.len() {
                     self.data[i].$method(0);
+                }
+                if let Some(l) = self.data.get_mut(self.length / Bvd::BIT_UNIT) {
+                    *l &= u64::mask(self.length % Bvd::BIT_UNIT);
                 }
             }
         }
